@@ -68,6 +68,23 @@ func (e *Env) Close() {
 	e.H.Reset()
 }
 
+// StableRebase waits until the hook traffic has stopped for a while and only
+// then declares the remaining pending count residue of consumers that have
+// exited (a store closed while its instance lives on).
+func (e *Env) StableRebase() {
+	last := e.H.Generation()
+	stable := 0
+	for i := 0; i < 1000 && stable < 25; i++ {
+		time.Sleep(2 * time.Millisecond)
+		if g := e.H.Generation(); g == last {
+			stable++
+		} else {
+			stable, last = 0, g
+		}
+	}
+	e.H.Rebase()
+}
+
 // ---- databases ----
 
 const (
